@@ -57,6 +57,12 @@ class RenameLocals(ast.NodeTransformer):
             if isinstance(n, (ast.Global, ast.Nonlocal)):
                 glob.update(n.names)
         locs -= glob
+        # names bound by an import statement inside the function keep their name (the alias is a string
+        # of the import statement, not a Name node: renaming only the uses would not preserve behaviour)
+        for n in ast.walk(node):
+            if isinstance(n, (ast.Import, ast.ImportFrom)):
+                for a in n.names:
+                    locs.discard((a.asname or a.name).split('.')[0])
         mapping = {n: n + '_q' for n in locs}
 
         class R(ast.NodeTransformer):
